@@ -258,6 +258,13 @@ const MVAR_FIELDS: [(&str, &str, usize, bool); 12] = [
     ("hcrs", "hhea", 18, true),
 ];
 
+fn metric_range(tag: &str) -> (i64, i64) {
+    match MVAR_FIELDS.iter().find(|m| m.0 == tag) {
+        Some((_, _, _, false)) => (0, 65535),
+        _ => (-32768, 32767),
+    }
+}
+
 fn metric_value(f: &RFont, tag: &str) -> Option<i64> {
     let (_, table, off, signed) = MVAR_FIELDS.iter().find(|m| m.0 == tag)?;
     let t = match *table {
@@ -723,12 +730,13 @@ fn emit_instance(
     out: &[u8],
     coords: &[i64],
     glyph_limit: usize,
+    expect: Option<&Value>,
 ) {
     let (loads, is_var) = loads_as_static(out);
     let of = match read_font(out) {
         Ok(f) => f,
         Err(e) => {
-            r.ev(case, "Failed", json!({"user": user, "stage": "read-output"}), json!({"err": e}));
+            r.ev(case, "Failed", json!({"user": user, "stage": "read-output", "generated": expect.is_some()}), json!({"err": format!("Panic:unreadable output: {}", e)}));
             return;
         }
     };
@@ -736,6 +744,20 @@ fn emit_instance(
                                                           "glyphs": of.glyphs.len(), "srcGlyphs": src.glyphs.len()}));
     if of.glyphs.len() != src.glyphs.len() || of.metrics.len() != src.metrics.len() {
         return;
+    }
+    if src.glyphs.is_empty() {
+        // no glyf table (CFF2): only the horizontal metrics are observed here
+        for gid in 0..src.metrics.len().min(glyph_limit) {
+            r.ev(
+                case,
+                "Glyph",
+                json!({"gid": gid, "kind": "cff", "coords": coords, "pts": [], "ends": [],
+                       "adv": src.metrics[gid].0, "lsb": src.metrics[gid].1, "xmin": 0, "plain": true,
+                       "hasShared": false, "tuples": [], "ser": [], "hvar": hvar, "exp": []}),
+                json!({"kind": "cff", "pts": [], "ends": [], "adv": of.metrics[gid].0, "lsb": of.metrics[gid].1,
+                       "xminKnown": false, "xmin": 0, "on": true}),
+            );
+        }
     }
     for gid in 0..src.glyphs.len().min(glyph_limit) {
         let sg = &src.glyphs[gid];
@@ -755,10 +777,11 @@ fn emit_instance(
             json!({"gid": gid, "kind": sg.kind, "coords": coords, "pts": pts_json(&sg.pts), "ends": sg.ends,
                    "adv": src.metrics[gid].0, "lsb": src.metrics[gid].1,
                    "xmin": if sg.kind == "empty" { 0 } else { sg.bbox[0] as i32 },
-                   "plain": plain, "hasShared": has_shared, "tuples": tuples, "ser": ser, "hvar": hvar}),
+                   "plain": plain, "hasShared": has_shared, "tuples": tuples, "ser": ser, "hvar": hvar,
+                   "exp": expect.and_then(|x| x.get(gid)).cloned().unwrap_or_else(|| json!([]))}),
             json!({"kind": og.kind, "pts": pts_json(&og.pts), "ends": og.ends, "adv": of.metrics[gid].0,
                    "lsb": of.metrics[gid].1,
-                   "xminKnown": matches!(xmin_out, Some(Some(_))),
+                   "xminKnown": matches!(xmin_out, Some(Some(_))) || og.kind == "empty",
                    "xmin": xmin_out.flatten().unwrap_or(0),
                    "on": sg.on == og.on && sg.comps.iter().map(|c| c.gid).eq(og.comps.iter().map(|c| c.gid))}),
         );
@@ -769,7 +792,8 @@ fn emit_instance(
             r.ev(
                 case,
                 "Metric",
-                json!({"tag": tag, "base": base, "coords": coords, "ivs": ivs, "outer": outer, "inner": inner}),
+                json!({"tag": tag, "base": base, "coords": coords, "ivs": ivs, "outer": outer, "inner": inner,
+                       "lo": metric_range(tag).0, "hi": metric_range(tag).1}),
                 json!({"value": val}),
             );
         }
@@ -888,13 +912,15 @@ fn replay(cases: &str, out: &str, dump_dir: Option<&str>) {
             let case = format!("g{}/u{}", ci, ui);
             r.instances += 1;
             match run_instance(&font, &user) {
-                Inst::Ok(o, coords) => emit_instance(&mut r, &case, &src, gvar, &hvar, mvar.as_ref(), &user, &o, &coords, 64),
+                Inst::Ok(o, coords) => {
+                    emit_instance(&mut r, &case, &src, gvar, &hvar, mvar.as_ref(), &user, &o, &coords, 64, c["expect"].get(ui))
+                }
                 Inst::Err(e) => {
                     if e.starts_with("Panic:") {
                         r.panics += 1;
                     }
                     r.failed += 1;
-                    r.ev(&case, "Failed", json!({"user": user, "stage": "instance"}), json!({"err": e}));
+                    r.ev(&case, "Failed", json!({"user": user, "stage": "instance", "generated": true}), json!({"err": e}));
                 }
             }
         }
@@ -972,14 +998,14 @@ fn record(seed: u64, per_font: usize, glyph_limit: usize, out: &str) {
             r.instances += 1;
             match run_instance(&data, user) {
                 Inst::Ok(o, coords) => {
-                    emit_instance(&mut r, &case, &src, gvar, &hvar, mvar.as_ref(), user, &o, &coords, glyph_limit)
+                    emit_instance(&mut r, &case, &src, gvar, &hvar, mvar.as_ref(), user, &o, &coords, glyph_limit, None)
                 }
                 Inst::Err(e) => {
                     if e.starts_with("Panic:") {
                         r.panics += 1;
                     }
                     r.failed += 1;
-                    r.ev(&case, "Failed", json!({"user": user, "stage": "instance", "font": name}), json!({"err": e}));
+                    r.ev(&case, "Failed", json!({"user": user, "stage": "instance", "generated": false}), json!({"err": e}));
                 }
             }
         }
